@@ -19,31 +19,32 @@ theorem acceptKids_spec {U D : List BlockAbs} (hwf : WF U) (hDU : ∀ b ∈ D, b
     (acceptKids s ks acc e).1.orphans = s.orphans ∧ (acceptKids s ks acc e).1.evicted = s.evicted ∧
     (∀ h, (s.status h).data = true → ((acceptKids s ks acc e).1.status h).data = true) ∧
     (∀ h ∈ (acceptKids s ks acc e).2.1, ((acceptKids s ks acc e).1.status h).data = true) ∧
-    (acceptKids s ks acc e).2.1.length ≤ acc.length + ks.length := by
+    (acceptKids s ks acc e).2.1.length ≤ acc.length + ks.length ∧ Adv s (acceptKids s ks acc e).1 := by
   intro ks
   induction ks with
   | nil =>
     intro s Q acc e hi _ hacc
-    exact ⟨hi, rfl, rfl, fun h hh => hh, hacc, by simp [acceptKids]⟩
+    exact ⟨hi, rfl, rfl, fun h hh => hh, hacc, by simp [acceptKids], adv_refl s⟩
   | cons k ks ih =>
     intro s Q acc e hi hpar hacc
-    obtain ⟨h1, h2, h3, h4, h5⟩ := maybeAccept_spec hwf hDU hi (hpar k (by simp))
+    obtain ⟨h1, h2, h3, h4, h5, h6⟩ := maybeAccept_spec hwf hDU hi (hpar k (by simp))
     unfold acceptKids
-    generalize maybeAccept s k = res at h1 h2 h3 h4 h5 ⊢
+    generalize maybeAccept s k = res at h1 h2 h3 h4 h5 h6 ⊢
     obtain ⟨s1, o⟩ := res
-    simp only [] at h1 h2 h3 h4 h5 ⊢
+    simp only [] at h1 h2 h3 h4 h5 h6 ⊢
     cases o with
     | none =>
       simp only [Option.isSome_none, Bool.false_eq_true, if_false] at h1
       simp only []
-      obtain ⟨a, b, c, d, f, g⟩ := ih s1 Q acc true h1 (fun k' hk' => h4 _ (hpar k' (by simp [hk'])))
+      obtain ⟨a, b, c, d, f, g, ad⟩ := ih s1 Q acc true h1 (fun k' hk' => h4 _ (hpar k' (by simp [hk'])))
         (fun h hh => h4 _ (hacc h hh))
-      exact ⟨a, b.trans h2, c.trans h3, fun h hh => d h (h4 h hh), f, by simp only [List.length_cons]; omega⟩
+      exact ⟨a, b.trans h2, c.trans h3, fun h hh => d h (h4 h hh), f, by simp only [List.length_cons]; omega,
+        adv_trans h6 ad⟩
     | some m =>
       simp only [Option.isSome_some, if_true] at h1 h5
       simp only []
       rw [List.append_assoc] at h1
-      obtain ⟨a, b, c, d, f, g⟩ := ih s1 Q (acc ++ [k.hash]) e h1
+      obtain ⟨a, b, c, d, f, g, ad⟩ := ih s1 Q (acc ++ [k.hash]) e h1
         (fun k' hk' => h4 _ (hpar k' (by simp [hk'])))
         (by
           intro h hh
@@ -51,14 +52,14 @@ theorem acceptKids_spec {U D : List BlockAbs} (hwf : WF U) (hDU : ∀ b ∈ D, b
           rcases hh with hh | hh
           · exact h4 _ (hacc h hh)
           · rw [hh]; exact h5 trivial)
-      refine ⟨a, b.trans h2, c.trans h3, fun h hh => d h (h4 h hh), f, ?_⟩
+      refine ⟨a, b.trans h2, c.trans h3, fun h hh => d h (h4 h hh), f, ?_, adv_trans h6 ad⟩
       simp only [List.length_append, List.length_cons, List.length_nil] at g ⊢
       omega
 
 theorem drain_spec {U D : List BlockAbs} (hwf : WF U) (hDU : ∀ b ∈ D, b ∈ U) :
     ∀ (f : Nat) (s : State) (q : List Hash) (e : Bool),
     Inv U D q [] s → (∀ h ∈ q, (s.status h).data = true) → q.length + s.orphans.length ≤ f →
-    Inv U D [] [] (drain f s q e).1 ∧ (drain f s q e).1.evicted = s.evicted := by
+    Inv U D [] [] (drain f s q e).1 ∧ (drain f s q e).1.evicted = s.evicted ∧ Adv s (drain f s q e).1 := by
   intro f
   induction f with
   | zero =>
@@ -68,11 +69,11 @@ theorem drain_spec {U D : List BlockAbs} (hwf : WF U) (hDU : ∀ b ∈ D, b ∈ 
       | nil => rfl
       | cons a r => simp at hf
     subst this
-    exact ⟨hi, rfl⟩
+    exact ⟨hi, rfl, adv_refl s⟩
   | succ f ih =>
     intro s q e hi hqd hf
     cases q with
-    | nil => exact ⟨hi, rfl⟩
+    | nil => exact ⟨hi, rfl, adv_refl s⟩
     | cons h q' =>
       unfold drain
       simp only []
@@ -121,15 +122,17 @@ theorem drain_spec {U D : List BlockAbs} (hwf : WF U) (hDU : ∀ b ∈ D, b ∈ 
         exact hqd h (by simp)
       have hq'0 : Inv U D (q' ++ []) ((s.orphans.filter (fun p => p.1.parent == h)).map (·.1)) s0 := by
         rw [List.append_nil]; exact hinv0
-      obtain ⟨a, b, c, d, g, hl⟩ := acceptKids_spec hwf hDU _ s0 q' [] e hq'0 hkids (by intro x hx; cases hx)
-      generalize acceptKids s0 ((s.orphans.filter (fun p => p.1.parent == h)).map (·.1)) [] e = res at a b c d g hl ⊢
+      obtain ⟨a, b, c, d, g, hl, ad⟩ := acceptKids_spec hwf hDU _ s0 q' [] e hq'0 hkids (by intro x hx; cases hx)
+      generalize acceptKids s0 ((s.orphans.filter (fun p => p.1.parent == h)).map (·.1)) [] e = res at a b c d g hl ad ⊢
       obtain ⟨s1, acc, e1⟩ := res
-      simp only [] at a b c d g hl ⊢
+      simp only [] at a b c d g hl ad ⊢
+      have ad0 : Adv s s0 := by
+        refine ⟨Or.inl hb0, fun x n hx => by rw [hi0]; exact hx⟩
       have hlen : (s.orphans.filter (fun p => p.1.parent == h)).length +
           (s.orphans.filter (fun p => !(p.1.parent == h))).length = s.orphans.length := by
         have := (List.filter_append_perm (fun p : BlockAbs × Nat => p.1.parent == h) s.orphans).length_eq
         simpa using this
-      obtain ⟨r1, r2⟩ := ih s1 (q' ++ acc) e1 a
+      obtain ⟨r1, r2, r3⟩ := ih s1 (q' ++ acc) e1 a
         (by
           intro x hx
           simp at hx
@@ -140,7 +143,7 @@ theorem drain_spec {U D : List BlockAbs} (hwf : WF U) (hDU : ∀ b ∈ D, b ∈ 
           rw [b, ho0]
           simp only [List.length_append, List.length_cons, List.length_map, List.length_nil] at hf hl ⊢
           omega)
-      exact ⟨r1, r2.trans (c.trans he0)⟩
+      exact ⟨r1, r2.trans (c.trans he0), adv_trans ad0 (adv_trans ad r3)⟩
 
 /-! ### addOrphanBlock -/
 
@@ -245,7 +248,8 @@ theorem inv_add_D {U D : List BlockAbs} {Q : List Hash} {P : List BlockAbs} {s :
 /-! ### ProcessBlock -/
 
 theorem processBlock_spec {U D : List BlockAbs} {s : State} {b : BlockAbs} (hwf : WF U) (hDU : ∀ x ∈ D, x ∈ U)
-    (hbU : b ∈ U) (hi : Inv U D [] [] s) : Inv U (b :: D) [] [] (processBlock s b).1 := by
+    (hbU : b ∈ U) (hi : Inv U D [] [] s) :
+    Inv U (b :: D) [] [] (processBlock s b).1 ∧ Adv s (processBlock s b).1 := by
   have hDU' : ∀ x ∈ b :: D, x ∈ U := by
     intro x hx; simp only [List.mem_cons] at hx; rcases hx with hx | hx
     · subst hx; exact hbU
@@ -254,12 +258,13 @@ theorem processBlock_spec {U D : List BlockAbs} {s : State} {b : BlockAbs} (hwf 
   cases hdat : (s.status b.hash).data with
   | true =>
     simp only [if_true]
-    exact inv_add_D hi (fun _ => Or.inl hdat)
+    exact ⟨inv_add_D hi (fun _ => Or.inl hdat), adv_refl s⟩
   | false =>
     simp only [Bool.false_eq_true, if_false]
     cases horp : s.orphans.any (fun p => p.1.hash == b.hash) with
     | true =>
       simp only [if_true]
+      refine ⟨?_, adv_refl s⟩
       apply inv_add_D hi
       intro _
       right; left
@@ -279,6 +284,7 @@ theorem processBlock_spec {U D : List BlockAbs} {s : State} {b : BlockAbs} (hwf 
       cases hsane : b.sane with
       | false =>
         simp only [Bool.not_false, if_true]
+        refine ⟨?_, adv_refl s⟩
         apply inv_add_D hi
         intro hp
         unfold BlockAbs.preOk at hp
@@ -288,7 +294,9 @@ theorem processBlock_spec {U D : List BlockAbs} {s : State} {b : BlockAbs} (hwf 
         cases hpd : (s.status b.parent).data with
         | false =>
           simp only [Bool.not_false, if_true]
-          exact addOrphan_spec hi hsane hdat hfresh hpd
+          refine ⟨addOrphan_spec hi hsane hdat hfresh hpd, ?_⟩
+          obtain ⟨hidx, _, hbest, _⟩ := addOrphan_shape s b
+          exact ⟨Or.inl hbest, fun x n hx => by rw [hidx]; exact hx⟩
         | true =>
           simp only [Bool.not_true, Bool.false_eq_true, if_false]
           have hiP : Inv U (b :: D) [] [b] s := by
@@ -321,23 +329,23 @@ theorem processBlock_spec {U D : List BlockAbs} {s : State} {b : BlockAbs} (hwf 
                 · right; left; unfold Pool at y ⊢; simp at y ⊢; exact Or.inl y
                 · exact Or.inr (Or.inr (Or.inl y))
                 · exact Or.inr (Or.inr (Or.inr y))
-          obtain ⟨h1, h2, h3, h4, h5⟩ := maybeAccept_spec hwf hDU' hiP hpd
-          generalize maybeAccept s b = res at h1 h2 h3 h4 h5 ⊢
+          obtain ⟨h1, h2, h3, h4, h5, h6⟩ := maybeAccept_spec hwf hDU' hiP hpd
+          generalize maybeAccept s b = res at h1 h2 h3 h4 h5 h6 ⊢
           obtain ⟨s1, o⟩ := res
-          simp only [] at h1 h2 h3 h4 h5 ⊢
+          simp only [] at h1 h2 h3 h4 h5 h6 ⊢
           cases o with
           | none =>
             simp only [Option.isSome_none, Bool.false_eq_true, if_false] at h1
-            exact h1
+            exact ⟨h1, h6⟩
           | some m =>
             simp only [Option.isSome_some, if_true, List.nil_append] at h1 h5
             simp only []
-            obtain ⟨r1, _⟩ := drain_spec hwf hDU' (s1.orphans.length + 1) s1 [b.hash] false h1
+            obtain ⟨r1, _, r3⟩ := drain_spec hwf hDU' (s1.orphans.length + 1) s1 [b.hash] false h1
               (by intro x hx; simp only [List.mem_singleton] at hx; subst hx; exact h5 trivial)
               (by simp only [List.length_cons, List.length_nil]; omega)
-            generalize drain (s1.orphans.length + 1) s1 [b.hash] false = dres at r1 ⊢
+            generalize drain (s1.orphans.length + 1) s1 [b.hash] false = dres at r1 r3 ⊢
             obtain ⟨s2, e2⟩ := dres
-            cases e2 <;> exact r1
+            cases e2 <;> exact ⟨r1, adv_trans h6 r3⟩
 
 /-! ### ProcessBlockHeader -/
 
@@ -479,13 +487,18 @@ theorem processHeader_spec {U D : List BlockAbs} {s : State} {b : BlockAbs} (hwf
             rw [hdat, hki, hpool, hev1]
             exact hi.deliv x hx hp
 
-/-! ### a whole delivery history -/
+theorem processHeader_best (s : State) (b : BlockAbs) :
+    (processHeader s b).1.best = s.best := by
+  unfold processHeader
+  split
+  · rfl
+  · split
+    · rfl
+    · split
+      · split <;> rfl
+      · split <;> rfl
 
-def deliveryOnly : List Op → Prop
-  | [] => True
-  | .block _ :: r => deliveryOnly r
-  | .header _ :: r => deliveryOnly r
-  | _ :: _ => False
+/-! ### a whole delivery history -/
 
 theorem run_spec {U : List BlockAbs} (hwf : WF U) :
     ∀ (ops : List Op) (D : List BlockAbs) (s : State), deliveryOnly ops → (∀ x ∈ mentioned ops, x ∈ U) →
@@ -499,7 +512,7 @@ theorem run_spec {U : List BlockAbs} (hwf : WF U) :
     cases o with
     | block b =>
       have hbU : b ∈ U := hm b (by simp [mentioned])
-      have h1 := processBlock_spec hwf hDU hbU hi
+      have h1 := (processBlock_spec hwf hDU hbU hi).1
       obtain ⟨D', hD', hi'⟩ := ih (b :: D) (step s (.block b)).1 hdo
         (fun x hx => hm x (by simp [mentioned, hx]))
         (by intro x hx; simp only [List.mem_cons] at hx; rcases hx with hx | hx
